@@ -128,12 +128,19 @@ def check(repo, rep):
         if v in (('c', True), ('c', False)):
             if v == ('c', False):
                 ok = any(c[0][0] == 'call' and c[0][1] == ('b', 'isinstance') and not c[1] for c in l.conds)
-                rep.ob('a region is unequal to a non-region', ok, W(l.node), 'AudioRegion.__eq__:non-region')
+                # or: a compared field differs on this path
+                diff = any((g := norm_cmp(c[0], c[1])) and g[0] == '!=' and g[1][0] == 'attr' and g[2][0] == 'attr' and {g[1][1], g[2][1]} == {('self',), o_} and ROLE_OF.get(g[1][2], g[1][2]) == ROLE_OF.get(g[2][2], g[2][2]) for c in l.conds)
+                rep.ob('False is returned only for a non-region or when a compared field differs', ok or diff, W(l.node), 'AudioRegion.__eq__:false-path')
             else:
                 ok = any(norm_cmp(c[0], c[1]) and norm_cmp(c[0], c[1])[0] == 'is' for c in l.conds)
                 rep.ob('True is returned only for the identical object', ok, W(l.node), 'AudioRegion.__eq__:identity')
             continue
         parts = list(v[1]) if v[0] == 'and' else [v]
+        # fields already found equal on this path (early `return False` on inequality)
+        for c in l.conds:
+            g = norm_cmp(c[0], c[1])
+            if g and g[0] == '==' and g[1][0] == 'attr' and g[2][0] == 'attr' and {g[1][1], g[2][1]} == {('self',), o_}:
+                parts.append(('cmp', '==', g[1], g[2]))
         fields = set()
         good = True
         for pz in parts:
